@@ -209,6 +209,11 @@ func genC03(t *rapid.T) c03Case {
 	}
 	total := c.Seeds * (1 + c.Assets)
 	c.K = rapid.IntRange(1, max(1, min(total, 6))).Draw(t, "k")
+	if c.Links > 0 && rapid.IntRange(0, 2).Draw(t, "late") == 0 {
+		// the stop lands on a request for an outlink page: the local queue holds a backlog, its consumer is busy claiming
+		// rows and waiting for reactor tokens
+		c.K = total + rapid.IntRange(1, min(c.Links*c.Seeds, 8)).Draw(t, "klate")
+	}
 	if c.Moment == "arrival" || c.Moment == "midbody" {
 		c.After = []string{"", "429", "drop", "drop"}[rapid.IntRange(0, 3).Draw(t, "after")]
 		if c.Moment == "midbody" && c.After == "429" {
@@ -471,7 +476,10 @@ func TestVerif_C03_Proc(t *testing.T) {
 	{
 		i := veriflib.ShardIndex()
 		d := c03Case{Workers: []int{1, 3}[i%2], Pool: 1 + i%2, Seencheck: true, MaxRetry: i % 2, Seeds: 2 + i%3, Assets: 1 + i%2, Async: i%5 == 4, RateLimit: i%3 == 0, Proxy: i%6 == 5}
-		switch i % 4 {
+		switch i % 5 {
+		case 4:
+			// stop while an outlink page is being fetched: more outlinks wait in the local queue than there are tokens
+			d.Seeds, d.Links, d.Moment, d.K = 1, 12, "arrival", 1+d.Assets+2+i%3
 		case 0:
 			d.Moment, d.K, d.After = "midbody", 1+i%3, "drop"
 		case 1:
